@@ -92,10 +92,14 @@ pub struct Ev {
 pub struct Log {
     pub clock: AtomicU64,
     pub ev: Mutex<Vec<Ev>>,
+    /// more than `LOG_CAP` events: recording stopped (a polling actor that never sees its exit condition would otherwise
+    /// fill the memory of the machine within a minute), the execution ends as inconclusive
+    pub overflow: AtomicBool,
 }
+pub const LOG_CAP: usize = 4_000_000;
 impl Log {
     pub fn new() -> Arc<Log> {
-        Arc::new(Log { clock: AtomicU64::new(1), ev: Mutex::new(Vec::with_capacity(256)) })
+        Arc::new(Log { clock: AtomicU64::new(1), ev: Mutex::new(Vec::with_capacity(256)), overflow: AtomicBool::new(false) })
     }
     pub fn stamp(&self) -> u64 {
         self.clock.fetch_add(1, SeqCst)
@@ -103,7 +107,12 @@ impl Log {
     pub fn push(&self, actor: u16, kind: u8, op: &'static str, a: u64, b: u64) -> u64 {
         let stamp = self.stamp();
         hook::PROGRESS.fetch_add(1, Relaxed);
-        self.ev.lock().unwrap_or_else(|e| e.into_inner()).push(Ev { stamp, actor, kind, op, a, b });
+        let mut g = self.ev.lock().unwrap_or_else(|e| e.into_inner());
+        if g.len() < LOG_CAP {
+            g.push(Ev { stamp, actor, kind, op, a, b });
+        } else {
+            self.overflow.store(true, Relaxed);
+        }
         stamp
     }
     pub fn snapshot(&self) -> Vec<Ev> {
@@ -377,6 +386,7 @@ impl Exec {
         let mut last_progress = hook::PROGRESS.load(Relaxed);
         let mut last_events = self.log.clock.load(Relaxed);
         let mut hits_at_last_event = last_progress;
+        let mut pop_none_at_last_progress = hook::POP_NONE.load(Relaxed);
         let mut quiet_since = Instant::now();
         let mut next_sample = Duration::from_millis(150);
         let mut spins = 0u32;
@@ -404,6 +414,9 @@ impl Exec {
                 hits_at_last_event = p;
             }
             let quiet = p == last_progress && stalling == 0 && states.chars().all(|c| c == 'S');
+            if p != last_progress {
+                pop_none_at_last_progress = hook::POP_NONE.load(Relaxed);
+            }
             last_progress = p;
             if !quiet {
                 quiet_since = Instant::now();
@@ -419,7 +432,24 @@ impl Exec {
                     self.open_calls()
                 )));
             }
+            if self.log.overflow.load(Relaxed) {
+                return Err(Fail::Inconclusive(format!(
+                    "runaway execution: more than {} API events without completing (threads '{}'); open calls: {:?}",
+                    LOG_CAP,
+                    states,
+                    self.open_calls()
+                )));
+            }
             if el > hard_cap {
+                let idle_spins = hook::POP_NONE.load(Relaxed).saturating_sub(pop_none_at_last_progress);
+                if idle_spins > 2_000_000 {
+                    return Err(Fail::Livelock(format!(
+                        "a worker went through its scheduling loop {} times without finding anything to run and without sleeping, while nothing else made progress (threads '{}'); open calls: {:?}",
+                        idle_spins,
+                        states,
+                        self.open_calls()
+                    )));
+                }
                 let spun = p.saturating_sub(hits_at_last_event);
                 if spun > 1_000_000 {
                     return Err(Fail::Livelock(format!(
